@@ -81,9 +81,14 @@ def run_case(case):
     m2 = B.build(s2)
     # count absence steps with a WORKING task (non-triviality) with the in-step monitor attached
     tr = I.Tracer([M.MonC10()])
+    ready_logged_at_absence = False
     try:
         with I.tracing(tr):
             B.run(m2.project, s2)
+            for t in m2.project.workflow.task_list:
+                for a in L:
+                    if a < len(t.state_record_list) and t.state_record_list[a] == M.TS.READY:
+                        ready_logged_at_absence = True
             m2.project.remove_absence_time_list()
     except Exception as ex:
         res["aborted"] = exc_info(ex)
@@ -102,7 +107,10 @@ def run_case(case):
         beyond = [x for x in L if x >= base.project.time + len([y for y in L if y < x])]
         owner = path.split("/")[1] if "/" in path else path
         mech = "C10/equivalence"
-        if owner.startswith("WP:") and path.split("/")[2] == "p":
+        if spec["sim"]["rule"] == int(ns.TaskPriorityRuleMode.FIFO) and ready_logged_at_absence:
+            # the FIFO key counts READY entries of the log, which include project absence steps
+            mech += ":FIFO-key-counts-READY-entries-logged-at-absence-steps"
+        elif owner.startswith("WP:") and path.split("/")[2] == "p":
             mech += ":workplace-content-log-not-edited"
         elif beyond and (owner in ("time",) or "len" in path):
             mech += ":absence-step-beyond-end"
